@@ -35,6 +35,11 @@ CLAIMED = {
    note=TB + "exact arithmetic over a commutative ring; scipy expm/quad and the SVD compression of PT-TEMPO are not "
         "modelled: their outputs enter as data and the hypothesis 'dense MPO = influence functional' is checked on sampled "
         "paths each run; 'tightens with tolerance' not shown."),
+ "C03": dict(
+   technique="Lean 4 proof (induction over steps / environment lists / List.Perm) on an executable multi-environment contraction model + regenerated leg wiring (MpoWiring) + differential correspondence against real compute_dynamics / get_mpo_tensor / compute_caps",
+   text="For every number of steps, bond dimension and tensor content, compute_dynamics with a list of process tensors records what it records for one combined process tensor (no cross-talk between bond legs), hence the dynamics of its dense form. The list order is irrelevant for any permutation of pairwise commuting environments. The caps produced by compute_caps close exactly the transformed tensors that are contracted, for rank 3 and rank 4, with and without transforms, in both SimpleProcessTensor and FileProcessTensor, and equal the ancilla trace for trace-preserving joint maps. The process tensor of an ancilla reproduces the partial trace of the joint evolution, interleaved with half-step propagators and controls, at every step, including the finite form with its last bond closed. Two baths with one coupling operator equal one bath with the summed eta at the level of influence functionals, dense process tensors and reported states. The axis numbers, delta scrambling, transform transposes, trace vectors and cap leg closings are re-read from the source on every run, and the executable model is compared with the real code on random tensor lists.",
+   ref="§4 C03",
+   note=TB + "tensornetwork joins exactly the edges connected with ^ (edge identity); numpy dot/moveaxis/.T semantics; h5py round-trip; exact arithmetic in the theorems (float code agrees to 1e-15 observed, 1e-9 demanded). Order independence only under the commutation hypothesis (non-commuting order is not claimed: it would be a false alarm). The dense-form hypotheses of sum_of_baths are C02's sampled correspondence."),
  "C04": dict(
    technique="Lean 4 proof (invariant of the path sum by induction over steps) + hypothesis instances evaluated in Lean on the real tensors",
    text=("Proved for all n, dimensions, tables and memory settings: the TEMPO path sum preserves the trace covector "
@@ -74,6 +79,11 @@ CLAIMED = {
    text="Each method object is modelled by its step counter, the log of in-place network updates (with step arguments and user-callable inputs) and its recorded results. The order of statements in every backend step and the loop conditions of the compute methods are regenerated from the source on each run and interpreted by the model. Kernel-checked theorems show for all target lists that splitting equals one call with the furthest target and reached targets are no-ops (Tempo, MeanFieldTempo, PtTebd). For all histories and all fault oracles they show the object stays in a fault-free state, so a retried call fails again or gives the no-failure result (faultSafe decided on the regenerated lists). PtTempo and GibbsTempo are proved idempotent for every compute/get history. A PtTebd restart from the exported chain continues identically when no pre-measurement control sits at the restart step. Real objects with fault-injecting wrappers at every user-call index are compared exactly with the model on step counters, call traces, time lists and outcomes.",
    ref="§4 C14",
    note=TB + "the LoopOrder classification tables in translate.py (which attributes hold user callables / the network); abstraction 'equal logs => equal numbers' (deterministic code); FloatModel and FloatGrid.steps_mono/gridTime_mono (dt>0); faults are exceptions raised by Hamiltonian/rates/Lindblad/field_eom callables, not bath correlations; known finding restart:PtTebd:pre-control-at-restart-step."),
+ "C19": dict(
+   technique="Lean 4 small-step model of main thread + threading.Timer threads with invariant proof; translator-generated API guard table and ProgressBar micro-op lists; differential runs of the real code (fault injection, deterministic schedule replay via sys.settrace)",
+   text="Every API that calls get_progress is read from the source and shown (decide over the regenerated table) to use its progress object through with/try-finally, and a theorem proves for all loop lengths N and all failure points that such an API always calls exit(). The ProgressBar statements are regenerated from oqupy/util.py and shown equal to a lock + active-flag + daemon-timer protocol for which an inductive invariant over the interleaving semantics proves that, for every schedule, number of updates and number of timer firings, no timer is pending or running once exit() returned and callbacks drained, that no deadlock exists, and that all timer threads are daemonic; 'silent' and 'simple' provably start no thread. The model is pinned to the code by running every API with failing user callables (per-object call traces, timers created and their final states compared exactly) and by driving the real ProgressBar statement-by-statement through all schedules for up to 2 updates / 1 firing (thorough: 16026 schedules with 2 firings) with step-wise state comparison against the model.",
+   ref="§4 C19",
+   note=TB + "CPython threading.Timer/Lock semantics as modelled (cancel before fire => never runs; after => no effect; start twice raises; `with lock` releases on return/exception), statement-level atomicity of micro-ops, the API skeleton enter;(work;update)xN;exit, sys.settrace line gating and the fake Timer in the replay. Not shown: interpreter shutdown itself, one in-flight status line of the one-shot first timer."),
  "C20": dict(
    technique="Lean 4 proof over tables regenerated from source (memo/cache invariant, verified static checker for array sites, numpy view-rule lemma) + translator + differential correspondence",
    text="The CacheKeys fragment regenerates from the source, for every memoised/public method of the correlations and System classes, its cache key and the attributes it reads (directly, through lambdas stored by __init__, or captured constructor arguments), how Bath copies, and what each anchored function does to a user array. Lean decides on these tables that reads are direct and covered by the key, that Bath copies, and that every array site passes a static check. It proves for all operation histories (including arbitrary cache eviction) that every evaluation returns the value for the object's current attributes and that copies are independent of their originals. It proves that, for all strides, flags and nonzero shapes, every site leaves the caller's array and buffer untouched, never raises numpy's in-place-reshape error, and produces arrays determined by shape and values alone. This rests on a proof that numpy's no-copy reshape always succeeds when only unit axes are inserted, and on a simulation between the concrete and the layout-free array machines. The numpy model is validated exactly against real numpy on 9k (quick) / 43k (thorough) layout x op cases, the memo model bit-for-bit on generated histories over real objects, and 38 public APIs are run in 10 memory layouts comparing caller bytes, flags and results.",
